@@ -83,6 +83,7 @@ HCIcrle_init(accrec_t *access_rec)
     rle_info->last_byte   = (unsigned)RLE_NIL; /* start with no code in the last byte */
     rle_info->second_byte = (unsigned)RLE_NIL; /* start with no code here too */
     rle_info->offset      = 0;                 /* offset into the file */
+    rle_info->unwritten   = FALSE;             /* nothing waits to be written */
 
     return SUCCEED;
 } /* end HCIcrle_init() */
@@ -262,6 +263,7 @@ HCIcrle_encode(compinfo_t *info, int32 length, const uint8 *buf)
     }
 
     rle_info->offset += orig_length; /* incr. abs. offset into the file */
+    rle_info->unwritten = (rle_info->rle_state != RLE_INIT);
     return SUCCEED;
 } /* end HCIcrle_encode() */
 
@@ -308,6 +310,7 @@ HCIcrle_term(compinfo_t *info)
     }
     rle_info->rle_state   = RLE_INIT;
     rle_info->second_byte = rle_info->last_byte = (unsigned)RLE_NIL;
+    rle_info->unwritten   = FALSE;
 
     return SUCCEED;
 } /* end HCIcrle_term() */
@@ -425,7 +428,7 @@ HCPcrle_seek(accrec_t *access_rec, int32 offset, int origin)
     rle_info = &(info->cinfo.coder_info.rle_info);
 
     if (offset < rle_info->offset) { /* need to seek from the beginning */
-        if ((access_rec->access & DFACC_WRITE) && rle_info->rle_state != RLE_INIT)
+        if ((access_rec->access & DFACC_WRITE) && rle_info->unwritten)
             if (HCIcrle_term(info) == FAIL)
                 HRETURN_ERROR(DFE_CTERM, FAIL);
         if (HCIcrle_init(access_rec) == FAIL)
@@ -582,7 +585,7 @@ HCPcrle_endaccess(accrec_t *access_rec)
     rle_info = &(info->cinfo.coder_info.rle_info);
 
     /* flush out RLE buffer */
-    if ((access_rec->access & DFACC_WRITE) && rle_info->rle_state != RLE_INIT)
+    if ((access_rec->access & DFACC_WRITE) && rle_info->unwritten)
         if (HCIcrle_term(info) == FAIL)
             HRETURN_ERROR(DFE_CTERM, FAIL);
 
